@@ -71,6 +71,11 @@ def run_case(c, yaml):
         c.node = yaml.ScalarNode('tag:yaml.org,2002:null', '', m, m)
     if has_sharing(yaml, c.node):
         c.shared = True
+        strings = N.all_scalar_values_graph(yaml, c.node)
+        ext = N.ext_sexp(yaml, strings)
+        env = c.model.env_wire(c.real.loader_cls, ext)
+        ty = CM.ty_sexp_of_py(c.real.py_type, None)
+        c.request = 'loaddoc {} {} {}'.format(env, N.doc_sexp(yaml, c.node), ty)
         return
     c.shared = False
     strings = N.all_scalar_values(yaml, c.node, set())
@@ -173,6 +178,11 @@ def compare(c, m):
             return 'real raises RecognitionError ({}), model gives {}'.format(
                 c.real_out[1][:300].replace('\n', ' / '), {k: v for k, v in m.items() if k != 'calls'})
         if [tuple(x) for x in m['marks']] != [tuple(x) for x in real[1]]:
+            if c.doc_type[0] != 'cls' and c.real_out[1].startswith('An error occurred'):
+                # PyYAML constructs a top-level list/dict in rounds (generators): with two defects in
+                # different items, which one is reported first is not modelled (DESIGN.md, modelling gaps)
+                c.order_ambiguity = True
+                return None
             return 'cited positions differ: real {} model {} ({})'.format(
                 real[1], m['marks'], c.real_out[1][:300].replace('\n', ' / '))
         if not m['keys'] <= real[2]:
